@@ -34,7 +34,7 @@ func init() {
 	core.Register(&core.Prop{
 		ID:    "C19",
 		Level: "exploration",
-		Rule: "histories of 8-40 operations (set 45%, unset 20% incl. unknown names, clear 5%, set of a missing target with/without --force, overwrite) over a pool of 2-6 names per history drawn from {ASCII, with/without leading @, Unicode incl. NFC/NFD twins, blanks, both quote characters, backslash, tab, `default`, `@`, trailing/inner @} " +
+		Rule: "histories of 8-40 operations (set 45%, unset 20% incl. unknown names, clear 5%, set of a missing target with/without --force, overwrite, set while the database file cannot be written - which must not report success) over a pool of 2-6 names per history drawn from {ASCII, with/without leading @, Unicode incl. NFC/NFD twins, blanks, both quote characters, backslash, tab, `default`, `@`, trailing/inner @} " +
 			"and 3-6 target files whose paths contain blanks, quotes, non-ASCII and `..` segments; every target holds a unique total so that `klog total @name` identifies the resolved file. each operation is a separate `main.Run` on a fresh context over one config folder (state flows only through bookmarks.json), 1 in 16 histories as real processes of the binary. " +
 			"after EVERY operation: `bookmarks list` parsed and compared with the reference map (set equality; order for plain lower-case names), bookmarks.json decoded independently == map with absolute paths, two `bookmarks info` and `klog total @name` probes incl. an absent name and the default-bookmark resolution without argument; " +
 			"a failed unset must return non-zero and leave bookmarks.json byte-identical; at the end every key is probed. non-trivial & distinct = histories with >=2 overwrites, >=1 successful and >=1 failed unset and a clear followed by further sets, by hash",
@@ -194,6 +194,8 @@ func c19History(e *core.Env, r *core.Rand, idx int64) {
 			op = c19Op{"set-missing", names[r.Intn(len(names))], -1}
 		case k < 82:
 			op = c19Op{"set-force", names[r.Intn(len(names))], -1}
+		case k < 85:
+			op = c19Op{"set-write-fault", names[r.Intn(len(names))], r.Intn(nT)}
 		default:
 			op = c19Op{"set", names[r.Intn(len(names))], r.Intn(nT)}
 		}
@@ -217,6 +219,12 @@ func c19History(e *core.Env, r *core.Rand, idx int64) {
 			expectOK = false
 		case "set-force":
 			args = []string{"bookmarks", "set", "--force", missing, op.Name}
+		case "set-write-fault":
+			// the database cannot be written (it is a dangling symlink into a missing directory): the command must not report success
+			args = []string{"bookmarks", "set", targetArgs[op.Target], op.Name}
+			expectOK = false
+			_ = os.Rename(dbPath, dbPath+".saved")
+			_ = os.Symlink(filepath.Join(root, "missing-dir", "bookmarks.json"), dbPath)
 		case "unset":
 			args = []string{"bookmarks", "unset", op.Name}
 			_, expectOK = model[c19Norm(op.Name)]
@@ -226,6 +234,11 @@ func c19History(e *core.Env, r *core.Rand, idx int64) {
 		}
 		trace = append(trace, strings.Join(args[1:], " ¦ "))
 		code, out, _, ok := run(args...)
+		if op.Kind == "set-write-fault" {
+			_ = os.Remove(dbPath)
+			_ = os.Rename(dbPath+".saved", dbPath)
+			before, _ = os.ReadFile(dbPath)
+		}
 		if !ok {
 			return
 		}
